@@ -1175,6 +1175,7 @@ def rule_voicinginterp(ctx):
 
 
 RULES = [
+    ("C01.IMPULSETRAIN", 3, common.shared("c04", "rule_impulsetrain", "C01.IMPULSETRAIN")),
     ("C01.RANKPAIRS", 6, common.shared("c17", "rule_rankpairs", "C01.RANKPAIRS")),
     ("C01.OVERALLFORM", 3, common.shared("c04", "rule_overallform", "C01.OVERALLFORM")),
     ("C01.VOICINGINTERP", 1, rule_voicinginterp),
